@@ -213,3 +213,39 @@ impl ServiceInfo {
         ensures final(self).fullname() == old(self).fullname(),
     { unimplemented!() }
 }
+
+// ---- probing_handler's callees (unit schedule): proved in unit probing / assumed ----
+#[verifier::external_body] pub struct DnsOutgoing { x: u8 }
+#[verifier::external_body] pub struct DnsQuestion { x: u8 }
+impl DnsOutgoing {
+    #[verifier::external_body]
+    pub fn questions(&self) -> (r: &[DnsQuestion]) { unimplemented!() }
+}
+// check_probing (contract proved in unit probing): only adds timers
+#[verifier::external_body]
+pub fn check_probing(dns_registry: &mut DnsRegistry, timers: &mut BinaryHeap<Reverse<u64>>, now: u64) -> (r: (DnsOutgoing, Vec<String>))
+    ensures timers_superset(final(timers)@, old(timers)@), final(dns_registry).announce_log() == old(dns_registry).announce_log(),
+{ unimplemented!() }
+#[verifier::external_body]
+pub fn send_dns_outgoing(out: &DnsOutgoing, my_intf: &MyIntf, sock: &PktInfoUdpSocket, port: u16, source: Option<&IfAddr>, unicast_dest: Option<SocketAddr>) -> (r: MyResult<Vec<Vec<u8>>>)
+{ unimplemented!() }
+// moves the records of finished probes to `active`, records name changes, tells the monitors; returns the (lower-cased)
+// names of the services that were waiting for those probes
+#[verifier::external_body]
+pub fn handle_expired_probes(expired_probes: Vec<String>, intf_name: &str, dns_registry: &mut DnsRegistry, monitors: &mut Vec<Sender<DaemonEvent>>) -> (r: HashSet<String>)
+    ensures final(dns_registry).announce_log() == old(dns_registry).announce_log(),
+{ unimplemented!() }
+impl ServiceInfo {
+    pub uninterp spec fn status_on(&self, if_index: u32) -> ServiceStatus;
+    #[verifier::external_body]
+    pub fn get_status(&self, intf: u32) -> (r: ServiceStatus) ensures r == self.status_on(intf) { unimplemented!() }
+}
+
+// field-level forms of queue_ok / timers_cover, for loop invariants that hold while a part of the daemon state is
+// mutably borrowed (same bodies)
+pub open spec fn queue_ok_rs(rs: Seq<ReRun>) -> bool {
+    forall|i: int| 0 <= i < rs.len() ==> cmd_ok((#[trigger] rs[i]).command)
+}
+pub open spec fn cover_rs(rs: Seq<ReRun>, timers: Multiset<u64>) -> bool {
+    forall|i: int| 0 <= i < rs.len() ==> timers.count((#[trigger] rs[i]).next_time) > 0
+}
